@@ -3,4 +3,9 @@ HARNESSES = [
     COMMON["aead"]("gcm12_seal", 2, [(17, "quick"), (40, "quick"), (16, "quick")]),
     COMMON["aead"]("gcm13_seal", 4, [(1, "quick"), (40, "quick")]),
 ]
-PROPERTY = dict(level="model_checking", explanation="", bounds="", outside="", assumptions=[])
+PROPERTY = dict(level='model_checking',
+    claim='Two consecutive seals under one key use different nonces and the write sequence number increases by exactly one per sealed record (TLS 1.2 GCM explicit nonce = sequence number; TLS 1.3 nonce = IV xor sequence number).',
+    bounds='record lengths enumerated; arbitrary IV and sequence number below 2^64-1',
+    outside='explicit CBC IV generation, DTLS epoch/rsn handling in encryptRecord, flight retransmission, key-change resets',
+    explanation='Two consecutive seals under one key use different nonces and the write sequence number increases by exactly one per sealed record (TLS 1.2 GCM explicit nonce = sequence number; TLS 1.3 nonce = IV xor sequence number).',
+    assumptions=[])
